@@ -599,17 +599,25 @@ PROPS["C08"] = {
     "group": lambda d: d["impl"].split(" ")[0],
     "rule": ("process mode: `lace compile src dest` with an emission failure (out-of-range label reference) injected at "
              "every statement position k of n (and no failure), and other invalid sources; destination pre-existing "
-             "with known random contents, absent, /dev/full, or in a non-existent directory; in two cases out of five "
-             "under a file size limit (RLIMIT_FSIZE with SIGXFSZ ignored: a write to a regular file fails after exactly "
-             "that many bytes, as on a full disk), plus an exhaustive sweep of the limit over every byte position 0..8 of "
-             "a 6-byte object file x 3 destinations; observed: exit status, the destination's bytes afterwards and the "
-             "number of files left behind next to it, compared with the file-system model of the Compile arm (destination, "
-             "temporary sibling, fault parameter) driven by the assembler model, and checked directly against the "
+             "with known random contents, absent, a private /dev/full-like device node, or in a non-existent directory; one "
+             "regular destination in three is special: a name that is not valid UTF-8, a 255-byte name, a live or dangling "
+             "symbolic link with a relative or absolute target in a sub-directory, a file with a second hard link; in two "
+             "cases out of five under a file size limit (RLIMIT_FSIZE with SIGXFSZ ignored: a write to a regular file fails "
+             "after exactly that many bytes, as on a full disk), plus an exhaustive sweep of the limit over every byte "
+             "position 0..8 of a 6-byte object file x 13 destinations; observed: exit status, the bytes read THROUGH THE "
+             "DESTINATION PATH afterwards and the number of stray entries in the working directory and the sub-directory "
+             "(+1 if the other hard-link name changed), compared with the path-level file-system model of "
+             "write_all_or_nothing / the Compile arm (PathFs.compileP: directories, links, inodes, path resolution, fault "
+             "parameter) run on the same file system and driven by the assembler model, and checked directly against the "
              "all-or-nothing predicate."),
-    "trusted": ["real file-system semantics beyond: create fails in a missing directory, /dev/full accepts open but no data, "
-                "a size limit makes write_all fail after a short write, rename is atomic"],
-    "assumptions": ["outside the model: a crash (SIGKILL, power loss) between two file operations; a failing rename is in the model "
-                    "(theorem) but not injected on the implementation"],
+    "trusted": ["real file-system semantics beyond: path resolution follows links (relative targets from the link's directory), "
+                "create fails in a missing directory and follows links, /dev/full accepts open but no data, "
+                "a size limit makes write_all fail after a short write, rename is atomic and replaces the destination's own "
+                "entry (a link is not followed), a renamed-over file keeps its other names"],
+    "assumptions": ["outside the model: permissions, `.`/`..`, mount points, concurrent writers, a crash (SIGKILL, power loss) "
+                    "between two file operations; a failing rename is in the model (theorem) but not injected on the "
+                    "implementation; theorems assume no entry named .lace-tmp<pid> exists and a destination that leads "
+                    "somewhere or has a link-free directory part (two counterexamples outside: DESIGN.md §11.3 'C08 paths')"],
 }
 
 
